@@ -581,7 +581,6 @@ func c14SliceToMap(r *R) {
 	}
 }
 
-
 // c14Stateful: the selecting helpers ask their callback exactly once per entry. With a stateful predicate
 // ("accept the first j entries I am asked about") the result holds exactly min(j, len) entries of the map
 // (which ones depends on the iteration order), the complement helper the others, and the callback has
